@@ -193,4 +193,206 @@ theorem workerPaths_ok : workerPaths.all wPathOk = true := by decide
 
 theorem handlerPaths_ok : handlerPaths.all hPathOk = true := by decide
 
+set_option linter.unusedSimpArgs false
+
+/-! ## preservation: one section of W / of M -/
+
+
+/-- new state after W ran section `x`. -/
+def afterW (s : St) (x : Micro) (rest : List Micro) : St :=
+  { (exec s x).1 with w := (exec s x).2 ++ rest }
+
+theorem toNat_le_one (b : Bool) : b.toNat ≤ 1 := by cases b <;> simp
+
+theorem num_stepW {s : St} (h : Inv s) {x : Micro} {rest : List Micro} (hw : s.w = x :: rest)
+    (hx : (afterW s x rest).exited = false) :
+    tokens (afterW s x rest) = (afterW s x rest).pending.toNat ∧
+    (afterW s x rest).suppress = owed (afterW s x rest) := by
+  obtain ⟨tok, sup, wfw, wfm, rel1, store, note, busy, act⟩ := h
+  rw [hw] at wfw
+  simp only [tokens, owed, hw] at tok sup
+  have hp := toNat_le_one s.pending
+  cases x <;> simp only [wfW, Micro.wAllowed, Bool.false_and, Bool.and_false, Bool.false_eq_true] at wfw
+  all_goals simp only [afterW, exec, tokens, owed, wsum_cons, wsum_nil, wsum_append, Micro.tokW, Micro.sup,
+    List.nil_append, List.length_nil] at tok sup hx ⊢
+  all_goals simp only [Bool.and_eq_true, decide_eq_true_eq, Bool.true_and] at wfw
+  case readProg => split <;> simp only [wsum_cons, wsum_nil, Micro.tokW, Micro.sup] <;> omega
+  case fatal => simp at hx
+  all_goals (
+    cases hr : s.reloading <;> cases ha : anyRelM s.m <;> cases hpd : s.pending <;>
+    simp only [hr, ha, hpd, Bool.toNat_true, Bool.toNat_false, Bool.or_true, Bool.or_false, Bool.and_true, Bool.and_false,
+      Bool.true_and, Bool.false_and, Bool.true_or, Bool.false_or, Bool.not_true, Bool.not_false, List.length_nil] at * <;> omega)
+
+
+macro "marith" s:ident rest:ident : tactic => `(tactic| (
+    repeat' split
+    all_goals (
+      try simp only [wsum_cons, wsum_nil, Micro.tokW, Micro.sup, Micro.sigTok, anyRelM_cons, anyRelM_nil, Micro.isRelM,
+        List.length_append, List.length_cons, List.length_nil, Bool.false_or, Bool.or_false] at *
+      cases hr : ($s).reloading <;> cases ha : anyRelM $rest <;> cases hpd : ($s).pending <;>
+      simp only [hr, ha, hpd, Bool.toNat_true, Bool.toNat_false, Bool.or_true, Bool.or_false, Bool.and_true, Bool.and_false,
+        Bool.true_and, Bool.false_and, Bool.true_or, Bool.false_or, Bool.not_true, Bool.not_false, List.length_nil,
+        forall_const, true_implies, Bool.false_eq_true, Bool.true_eq_false, eq_self, false_and, and_false, and_true, true_and, not_true_eq_false, not_false_eq_true, false_implies, implies_true] at * <;> omega)))
+def afterM (s : St) (x : Micro) (rest : List Micro) : St :=
+  { (exec s x).1 with m := (exec s x).2 ++ rest }
+
+theorem relM_le (x : Micro) : x.relM ≤ 1 := by unfold Micro.relM; split <;> omega
+
+theorem num_stepM {s : St} (h : Inv s) {x : Micro} {rest : List Micro} (hm : s.m = x :: rest)
+    (hx : (afterM s x rest).exited = false) :
+    tokens (afterM s x rest) = (afterM s x rest).pending.toNat ∧
+    (afterM s x rest).suppress = owed (afterM s x rest) := by
+  obtain ⟨tok, sup, wfw, wfm, rel1, store, note, busy, act⟩ := h
+  rw [hm] at wfm rel1 store
+  simp only [tokens, owed, hm] at tok sup
+  have hp := toNat_le_one s.pending
+  have hrel : anyRelM rest = true → 1 ≤ wsum Micro.relM rest := by
+    intro h
+    rcases Nat.eq_zero_or_pos (wsum Micro.relM rest) with h0 | h0
+    · rw [anyRelM_false_of_relM_zero rest h0] at h; cases h
+    · exact h0
+  cases x <;> simp only [wfM, Micro.mAllowed, Bool.false_and, Bool.and_false, Bool.false_eq_true] at wfm
+  all_goals simp only [afterM, exec, tokens, owed, wsum_cons, wsum_nil, wsum_append, Micro.tokW, Micro.sup, Micro.sigTok,
+    Micro.relM, Micro.isRelM, anyRelM_cons, anyRelM_append, anyRelM_nil, firstRelIsStore,
+    List.nil_append, List.length_nil, Bool.false_or, Bool.true_or, if_true, if_false, Bool.false_eq_true] at tok sup hx rel1 store ⊢
+  all_goals simp only [Bool.and_eq_true, decide_eq_true_eq, Bool.true_and] at wfm
+  case exitHold => simp at hx
+  case exitIdle => simp at hx
+  case casQ k => marith s rest
+  case beginSend k => marith s rest
+  case endSupp => marith s rest
+  case writeBusy b => marith s rest
+  case storePF => marith s rest
+  case readProg => marith s rest
+  case writeClr => marith s rest
+  case setProg p => marith s rest
+  case setActive b => cases b <;> simp at wfm; marith s rest
+  case setErr b => marith s rest
+  case nop => marith s rest
+  case setStaged b => marith s rest
+  case startRet => marith s rest
+  case storeReloading b => cases b <;> simp at wfm; marith s rest
+  case waitReady => marith s rest
+  case setResult => marith s rest
+  case finishFailHead => marith s rest
+  case finishSucc => marith s rest
+
+theorem rest_stepW {s : St} (h : Inv s) {x : Micro} {rest : List Micro} (hw : s.w = x :: rest)
+    (hx : (afterW s x rest).exited = false) :
+    let s' := afterW s x rest
+    wfW s'.w = true ∧ wfM s'.m = true ∧ wsum Micro.relM s'.m ≤ 1 ∧
+    (firstRelIsStore s'.m = true → s'.reloading = false) ∧
+    (s'.reloading = true → anyRelM s'.m = false → s'.notify = true) ∧
+    (s'.progress.isBusy = true → s'.pending = true ∨ anyRd s'.m = true ∨ anyRd s'.w = true ∨
+        0 < s'.gStore + s'.gEnd + s'.gRead + s'.gWrite) ∧
+    (s'.active = true → anyClrW s'.w = true ∨ anyClrM s'.m = true ∨ s'.reloading = true) := by
+  obtain ⟨tok, sup, wfw, wfm, rel1, store, note, busy, act⟩ := h
+  rw [hw] at wfw busy act
+  simp only [tokens, owed, hw] at tok sup
+  have hfs := anyRelM_of_firstRelIsStore s.m
+  have key : 1 ≤ wsum Micro.tokW (x :: rest) → s.reloading = false ∧ anyRelM s.m = false := by
+    intro h1
+    simp only [wsum_cons] at h1
+    have hp : s.pending.toNat ≤ 1 := by cases s.pending <;> simp
+    cases hr : s.reloading <;> cases ha : anyRelM s.m <;> simp [hr, ha] at tok ⊢ <;> omega
+  have hfs' : anyRelM s.m = false → firstRelIsStore s.m = false := by
+    intro h; cases hf : firstRelIsStore s.m
+    · rfl
+    · rw [hfs hf] at h; cases h
+  cases x <;> simp only [wfW, Micro.wAllowed, Bool.false_and, Bool.and_false, Bool.false_eq_true] at wfw
+  all_goals simp only [afterW, exec] at hx ⊢
+  case fatal => simp at hx
+  case readProg =>
+    by_cases hb : s.progress.isBusy = true <;>
+    (refine ⟨?_, ?_, ?_, ?_, ?_, ?_, ?_⟩ <;>
+     simp_all [wfW, Micro.wAllowed, Micro.isReader, Micro.clrW, Micro.tokW, Micro.sup, Prog.isBusy])
+  case setActive b =>
+    cases b <;>
+    (simp only [Bool.and_eq_true, decide_eq_true_eq, Bool.true_and, Bool.not_eq_true'] at wfw
+     refine ⟨?_, ?_, ?_, ?_, ?_, ?_, ?_⟩ <;>
+     simp_all [wfW, Micro.wAllowed, Micro.isReader, Micro.clrW, Micro.tokW, Micro.sup, Prog.isBusy])
+  case beginHandoff =>
+    have k := key (by simp [Micro.tokW])
+    refine ⟨?_, ?_, ?_, ?_, ?_, ?_, ?_⟩ <;>
+     simp_all [wfW, Micro.wAllowed, Micro.isReader, Micro.clrW, Micro.tokW, Micro.sup]
+  all_goals (
+    simp only [Bool.and_eq_true, decide_eq_true_eq, Bool.true_and, Bool.not_eq_true'] at wfw
+    refine ⟨?_, ?_, ?_, ?_, ?_, ?_, ?_⟩ <;>
+    simp_all [wfW, Micro.wAllowed, Micro.isReader, Micro.clrW, Micro.tokW, Micro.sup, Prog.isBusy])
+
+theorem rest_stepM {s : St} (h : Inv s) {x : Micro} {rest : List Micro} (hm : s.m = x :: rest)
+    (hx : (afterM s x rest).exited = false) :
+    let s' := afterM s x rest
+    wfW s'.w = true ∧ wfM s'.m = true ∧ wsum Micro.relM s'.m ≤ 1 ∧
+    (firstRelIsStore s'.m = true → s'.reloading = false) ∧
+    (s'.reloading = true → anyRelM s'.m = false → s'.notify = true) ∧
+    (s'.progress.isBusy = true → s'.pending = true ∨ anyRd s'.m = true ∨ anyRd s'.w = true ∨
+        0 < s'.gStore + s'.gEnd + s'.gRead + s'.gWrite) ∧
+    (s'.active = true → anyClrW s'.w = true ∨ anyClrM s'.m = true ∨ s'.reloading = true) := by
+  obtain ⟨tok, sup, wfw, wfm, rel1, store, note, busy, act⟩ := h
+  rw [hm] at wfm busy act rel1 store note
+  simp only [tokens, owed, hm] at tok sup
+  have hp : s.pending.toNat ≤ 1 := by cases s.pending <;> simp
+  have keySig : 1 ≤ wsum Micro.sigTok (x :: rest) → s.queue.length = 0 ∧ s.pending = true := by
+    intro h1
+    simp only [wsum_cons] at h1 tok
+    cases hpd : s.pending <;> simp only [hpd, Bool.toNat_false, Bool.toNat_true] at tok
+    · omega
+    · exact ⟨by omega, rfl⟩
+  have keyRel : x.isRelM = true → anyRelM rest = false := by
+    intro h1
+    apply anyRelM_false_of_relM_zero
+    simp only [wsum_cons, Micro.relM, h1, if_true] at rel1
+    omega
+  cases x <;> simp only [wfM, Micro.mAllowed, Bool.false_and, Bool.and_false, Bool.false_eq_true] at wfm
+  all_goals simp only [afterM, exec] at hx ⊢
+  case exitHold => simp at hx
+  case exitIdle => simp at hx
+  case casQ k =>
+    by_cases hpd : s.pending = true <;>
+    (refine ⟨?_, ?_, ?_, ?_, ?_, ?_, ?_⟩ <;>
+     simp_all [wfM, Micro.mAllowed, Micro.isReader, Micro.clrM, Micro.relM, Micro.isRelM, firstRelIsStore, Prog.isBusy])
+  case beginSend k =>
+    have k1 := keySig (by simp [Micro.sigTok])
+    have hq : s.queue.length < 1 := by omega
+    simp only [hq, if_true]
+    (refine ⟨?_, ?_, ?_, ?_, ?_, ?_, ?_⟩ <;>
+     simp_all [wfM, Micro.mAllowed, Micro.isReader, Micro.clrM, Micro.relM, Micro.isRelM, firstRelIsStore, Prog.isBusy, busyOf] <;>
+     first | omega | (intros; right; right; right; omega))
+  case writeBusy b =>
+    by_cases hpd : s.pending = true <;> cases b <;> (refine ⟨?_, ?_, ?_, ?_, ?_, ?_, ?_⟩ <;>
+     simp_all [wfM, Micro.mAllowed, Micro.isReader, Micro.clrM, Micro.relM, Micro.isRelM, firstRelIsStore, Prog.isBusy, busyOf] <;>
+     first | omega | (intros; right; right; right; omega))
+  case readProg =>
+    by_cases hb : s.progress.isBusy = true <;> (refine ⟨?_, ?_, ?_, ?_, ?_, ?_, ?_⟩ <;>
+     simp_all [wfM, Micro.mAllowed, Micro.isReader, Micro.clrM, Micro.relM, Micro.isRelM, firstRelIsStore, Prog.isBusy, busyOf] <;>
+     first | omega | (intros; right; right; right; omega))
+  case setActive b => cases b <;> (refine ⟨?_, ?_, ?_, ?_, ?_, ?_, ?_⟩ <;>
+     simp_all [wfM, Micro.mAllowed, Micro.isReader, Micro.clrM, Micro.relM, Micro.isRelM, firstRelIsStore, Prog.isBusy, busyOf] <;>
+     first | omega | (intros; right; right; right; omega))
+  case storeReloading b => cases b <;> (refine ⟨?_, ?_, ?_, ?_, ?_, ?_, ?_⟩ <;>
+     simp_all [wfM, Micro.mAllowed, Micro.isReader, Micro.clrM, Micro.relM, Micro.isRelM, firstRelIsStore, Prog.isBusy, busyOf] <;>
+     first | omega | (intros; right; right; right; omega))
+  case storePF =>
+    have k1 := keyRel (by simp [Micro.isRelM])
+    (refine ⟨?_, ?_, ?_, ?_, ?_, ?_, ?_⟩ <;>
+     simp_all [wfM, Micro.mAllowed, Micro.isReader, Micro.clrM, Micro.relM, Micro.isRelM, firstRelIsStore, Prog.isBusy, busyOf] <;>
+     first | omega | (intros; right; right; right; omega))
+  case finishFailHead =>
+    have k1 := keyRel (by simp [Micro.isRelM])
+    (refine ⟨?_, ?_, ?_, ?_, ?_, ?_, ?_⟩ <;>
+     simp_all [wfM, Micro.mAllowed, Micro.isReader, Micro.clrM, Micro.relM, Micro.isRelM, firstRelIsStore, Prog.isBusy, busyOf] <;>
+     first | omega | (intros; right; right; right; omega))
+  case finishSucc =>
+    have k1 := keyRel (by simp [Micro.isRelM])
+    rcases hrd : s.retDone with _ | _ | _ <;> (refine ⟨?_, ?_, ?_, ?_, ?_, ?_, ?_⟩ <;>
+     simp_all [wfM, Micro.mAllowed, Micro.isReader, Micro.clrM, Micro.relM, Micro.isRelM, firstRelIsStore, Prog.isBusy, busyOf] <;>
+     first | omega | (intros; right; right; right; omega))
+  case setResult => cases s.reloadErr <;> (refine ⟨?_, ?_, ?_, ?_, ?_, ?_, ?_⟩ <;>
+     simp_all [wfM, Micro.mAllowed, Micro.isReader, Micro.clrM, Micro.relM, Micro.isRelM, firstRelIsStore, Prog.isBusy, busyOf] <;>
+     first | omega | (intros; right; right; right; omega))
+  all_goals (refine ⟨?_, ?_, ?_, ?_, ?_, ?_, ?_⟩ <;>
+     simp_all [wfM, Micro.mAllowed, Micro.isReader, Micro.clrM, Micro.relM, Micro.isRelM, firstRelIsStore, Prog.isBusy, busyOf] <;>
+     first | omega | (intros; right; right; right; omega))
+
 end DaeVerif.C20
